@@ -11,6 +11,15 @@ for pid in ids:
     if pid not in PROPS:
         continue
     P = PROPS[pid]
+    tie = P.get("tie", [])
+    tie_text = ""
+    tie_tech = ""
+    if tie:
+        mods = ", ".join(t.split(".")[-1] for t in tie)
+        tie_text = (" REGENERATED-CODE TIE: the Go functions this property is anchored in that are pure enough to translate are regenerated as Lean definitions on every run "
+                    "(harness/cmd/go2lean -> lean/Ucan/Gen) and proved EQUAL to the models these theorems are about, for all inputs, including absence of index/nil panics and loop termination "
+                    f"(lean/Ucan/Props/Tie: {mods}; DESIGN.md §14.1); a change to one of them re-opens that proof obligation.")
+        tie_tech = f"; plus machine-checked equality between the model and Lean code regenerated from the current Go source by a translator (go2lean; tie modules {mods})"
     checks.append({
         "property_id": pid,
         "quick_cmd": f"./check {pid}",
@@ -18,9 +27,9 @@ for pid in ids:
         "evidence_file": f"/verif/evidence/{pid}.json",
         "replay_cmd_template": "./check replay {path}",
         "engine": "lean-proof+correspondence",
-        "level_claimed": {"category": P.get("level", "proof"), "text": P["level_text"], "design_ref": "DESIGN.md §6 " + pid},
-        "level_note": P["level_note"],
-        "technique": P["technique"],
+        "level_claimed": {"category": P.get("level", "proof"), "text": P["level_text"] + tie_text, "design_ref": "DESIGN.md §6 " + pid + (", §14" if tie else "")},
+        "level_note": P["level_note"] + (" go2lean (syntactic Go-subset translator) and its library-call table are trusted for the regenerated-code tie." if tie else ""),
+        "technique": P["technique"] + tie_tech,
     })
 na = [{"property_id": pid, "reason": NOT_APPLICABLE.get(pid, PENDING_REASON)} for pid in ids if pid not in PROPS]
 m = {
@@ -37,10 +46,10 @@ m = {
         "name": "lean-proof+correspondence",
         "path": "/verif/check",
         "serves_properties": [c["property_id"] for c in checks],
-        "kind_free_text": "Lean 4 theorems about hand-written models (lean/Ucan), tied to /repo on every run by (a) facts regenerated from the source (harness/cmd/factgen -> lean/Ucan/Gen/Facts.lean) and (b) a differential correspondence between the real Go packages and the compiled Lean model driver (harness/cmd/drive <-> lean/Main.lean)",
+        "kind_free_text": "Lean 4 theorems about hand-written models (lean/Ucan), tied to /repo on every run by (a) facts regenerated from the source (harness/cmd/factgen -> lean/Ucan/Gen/Facts.lean), (a') Go functions regenerated as Lean definitions (harness/cmd/go2lean -> lean/Ucan/Gen/*.lean) and proved equal to the models (lean/Ucan/Props/Tie), and (b) a differential correspondence between the real Go packages and the compiled Lean model driver (harness/cmd/drive <-> lean/Main.lean)",
     }],
     "checks": checks,
-    "notes": "Every check: regenerate facts from /repo, lake build of the property's theorems, #print axioms audit, forbidden-token scan, go build of the harness against /repo with -tags verif, correspondence streams, evidence. See DESIGN.md.",
+    "notes": "Every check: regenerate facts and translated functions from /repo, lake build of the property's theorems and tie theorems, #print axioms audit, forbidden-token scan, go build of the harness against /repo with -tags verif, correspondence streams, evidence. See DESIGN.md.",
     "not_applicable": na,
 }
 json.dump(m, open(os.path.join(VERIF, "MANIFEST.json"), "w"), indent=1, ensure_ascii=False)
